@@ -12,7 +12,7 @@ func init() {
 			"(6) recovery hands every recovered memtable to the read path and restores the sequence counter from the replay maximum; (7) the newest log file is reused for appending only behind a clean entry-boundary scan (so that writes acknowledged after a recovery are themselves recoverable); no read after the first of a record can leave as a clean io.EOF; (8) shared with C03/C09: the batch pre-validation uses writeRecord's own size formula and the buffer provision covers it; fragment writer and reader agree on chunk boundaries. " +
 			"Added after blind round 5: the log file is written through the buffered writer only and record writers never flush; error classes of the replay loops distinguish == from errors.Is (a wrapped unexpected EOF must still end the log); recovery's last table stays mutable; precedence slices grow at the end only.",
 		NotDecided: "the state at arbitrary stop instants, torn writes, directory fsync, repeated crash/recover cycles — all need execution under fault injection.",
-		Rules:      []func(*Ctx, *Reporter){ruleStWriteAhead, ruleWalSyncBeforeAck, ruleStRotation, ruleStRecovery, ruleSstFinish, ruleDestructiveOps, ruleStFlushPublish, ruleReuseValidatesTail, ruleWalBatch, ruleWalFragmentation, ruleRecoveryLastTableMutable, ruleWalFileWriters, ruleWalErrorClasses, subRules(ruleLayerOrder, "newest-is-last")},
+		Rules:      []func(*Ctx, *Reporter){ruleStWriteAhead, ruleWalSyncBeforeAck, ruleStRotation, ruleStRecovery, ruleSstFinish, ruleDestructiveOps, ruleStFlushPublish, ruleReuseValidatesTail, ruleWalBatch, ruleWalFragmentation, ruleRecoveryLastTableMutable, ruleWalFileWriters, ruleWalErrorClasses, subRules(ruleLayerOrder, "newest-is-last"), ruleRecoveryLimitsAreConfigured},
 	})
 	register(&PropertyDef{
 		ID: "C03",
@@ -23,7 +23,7 @@ func init() {
 			"(5) Buffer.Put/Delete copy key and value before storing them (capture at call time) and assign the same map under string(key) (last operation wins); Rollback clears the buffer before releasing the lock; a successful transactional Put/Delete has buffered exactly that operation; (6) shared with C02/C10: a log file is reused for appending only behind a clean tail (a torn batch is never followed by new commits in the same file). " +
 			"Added after blind round 5: the log file is written through the buffered writer only and the record writers never flush or sync on their own (a batch reaches the file in one piece).",
 		NotDecided: "atomicity across a crash (the log format has no batch frame: a torn batch cannot be recognised at replay — design remark, needs a crash to observe); concurrent-reader interleavings.",
-		Rules:      []func(*Ctx, *Reporter){ruleTxBufferIsolation, ruleTxApplyInside, ruleStSingleWriter, ruleStEffectOnce, ruleWalBatch, ruleTxBufferCapture, ruleTxRollbackClears, ruleTxOpsBuffered, ruleReuseValidatesTail, ruleWalFileWriters},
+		Rules:      []func(*Ctx, *Reporter){ruleTxBufferIsolation, ruleTxApplyInside, ruleStSingleWriter, ruleStEffectOnce, ruleWalBatch, ruleTxBufferCapture, ruleTxRollbackClears, ruleTxOpsBuffered, ruleReuseValidatesTail, ruleWalFileWriters, ruleBufferViewsFollowMap, ruleBatchFrame},
 	})
 	register(&PropertyDef{
 		ID: "C06",
@@ -33,7 +33,7 @@ func init() {
 			"(3) the stamp given to the memtable is the very number the log assigned; (4) WAL pointer discipline — Manager.wal is accessed atomically on the write path; (5) the retry wrapper's decision table (one call on success or on another error, an error after exhausted retries, re-run only on errors every Append* returns before any effect); (6) immutable memtables leave the pool (the read path) only into the flush path; (7) shared with C08: the sequence counter is handed over to the new log at rotation (a write acknowledged after a flush is never shadowed by an older version with a higher stamp). " +
 			"(8) every Append* reads the closed/rotating status while WAL.mu is held.",
 		NotDecided: "everything else: real-time order, stale reads across rotation, all schedules with background flush/compaction.",
-		Rules:      []func(*Ctx, *Reporter){ruleStSingleWriter, ruleStEffectOnce, ruleStStamps, ruleWalRotatingNoEffect, ruleStWalPointer, ruleLayersLeaveOnly, ruleStRotationSeqOnly, ruleWalStatusUnderLock},
+		Rules:      []func(*Ctx, *Reporter){ruleStSingleWriter, ruleStEffectOnce, ruleStStamps, ruleWalRotatingNoEffect, ruleStWalPointer, ruleLayersLeaveOnly, ruleStRotationSeqOnly, ruleWalStatusUnderLock, ruleStWriteAhead, subRules(ruleMemImmutableFields, "entry-copies")},
 	})
 	register(&PropertyDef{
 		ID: "C08",
@@ -45,7 +45,7 @@ func init() {
 			"(6) every Append* reads the closed/rotating status while WAL.mu is held (the hand-over of the counter at rotation relies on it). " +
 			"Added after blind round 5: every entry applied by recovery is compared with the running maximum; every access to the counter (GetNextSequence included) holds WAL.mu.",
 		NotDecided: "the actual numbers in a log directory after arbitrary histories; interactions between WAL retention and sequence numbers stored in SSTables.",
-		Rules:      []func(*Ctx, *Reporter){ruleWalMonotone, ruleStRotationSeqOnly, ruleStRecovery, ruleStStamps, ruleWalStatusUnderLock, ruleWalCounterUnderLock},
+		Rules:      []func(*Ctx, *Reporter){ruleWalMonotone, ruleStRotationSeqOnly, ruleStRecovery, ruleStStamps, ruleWalStatusUnderLock, ruleWalCounterUnderLock, ruleExplicitSeqBelowCounter, ruleLogExistsBeforeRecovery, ruleReportedSeqMonotone, subRules(ruleRetention, "retention-spares-current-log")},
 	})
 }
 
@@ -95,7 +95,7 @@ func init() {
 			"(7) the SSTable list is given a recency order when loaded from disk; (8) a successful transactional Put/Delete has buffered exactly that operation and pending operations leave the buffer only through Clear; immutable memtables leave the pool only into the flush path; (9) shared with C09: the buffered writer is never replaced without a flush and the fragment writer/reader agree on chunk boundaries (large values survive a reopen). " +
 			"Added after blind round 5: recovery seals a table only on a path that appends a fresh one behind it (the active table is never sealed); MemTable.Get's table; the comparator does not subtract sequence numbers; sort comparators index the sorted slice.",
 		NotDecided: "that the bytes returned equal the bytes put for every program (values); block/index seek landing inside SSTables (value-level binary search — the pinned tree gets this wrong, declared under C11); effects of memtable-size configurations.",
-		Rules:      []func(*Ctx, *Reporter){ruleLayerOrder, ruleTombstoneShortCircuit, ruleMemComparator, ruleMemFind, ruleMemInsert, ruleFlushRules, ruleStStamps, ruleEmptyNotDeleted, ruleTombstoneMarker, ruleRecencyAtLoad, ruleTxOpsBuffered, ruleWalNoBufferDrop, ruleWalFragmentation, ruleSortKeysFromSortedSlice, ruleMemTableGetTable, ruleRecoveryLastTableMutable, ruleComparatorNoSubtraction},
+		Rules:      []func(*Ctx, *Reporter){ruleLayerOrder, ruleTombstoneShortCircuit, ruleMemComparator, ruleMemFind, ruleMemInsert, ruleFlushRules, ruleStStamps, ruleEmptyNotDeleted, ruleTombstoneMarker, ruleRecencyAtLoad, ruleTxOpsBuffered, ruleWalNoBufferDrop, ruleWalFragmentation, ruleSortKeysFromSortedSlice, ruleMemTableGetTable, ruleRecoveryLastTableMutable, ruleComparatorNoSubtraction, ruleFlushKeepsNewest},
 	})
 	register(&PropertyDef{
 		ID: "C05",
@@ -107,7 +107,7 @@ func init() {
 			"(5) consumers — Scan/TxScan send only on the not-a-tombstone edge, stop iff limit > 0 ∧ count >= limit before emitting and count only emitted entries; " +
 			"(6) memtable iterators skip nodes invisible in their snapshot in Next/Seek/SeekToFirst; (7) transaction scans overlay the buffer as source 0, bounded like the storage range.",
 		NotDecided: "exactness of the key set for all data sets, seek landing inside SSTable blocks (see C11), scans concurrent with writers beyond the snapshot rule.",
-		Rules:      []func(*Ctx, *Reporter){ruleSourceOrder, ruleMergePolicy, ruleBounds, ruleFilter, ruleScanConsumers, ruleMemVisibility, ruleTxOwnWrites},
+		Rules:      []func(*Ctx, *Reporter){ruleSourceOrder, ruleMergePolicy, ruleBounds, ruleFilter, ruleScanConsumers, ruleMemVisibility, ruleTxOwnWrites, ruleCompositePositionsEveryChild, ruleMemSeekToLastNewest},
 	})
 }
 
